@@ -88,8 +88,8 @@ def acknowledge_contract():
         ensures=[
             # C03 / C19: acknowledging a message acknowledges that delivery and no other, at most once
             ("C03,C19:removed", "not (id in self.unacknowledged_messages)"),
-            ("C03,C19:others-kept", "unchanged_except(self.unacknowledged_messages, id)"),
-            ("C03,C19:single-delivery-ack", "implies(n_msg_ack == old(n_msg_ack) + 1, msg_ack_multiple == False)"),
+            ("C03,C04,C19:others-kept", "unchanged_except(self.unacknowledged_messages, id)"),
+            ("C03,C04,C19:single-delivery-ack", "implies(n_msg_ack == old(n_msg_ack) + 1, msg_ack_multiple == False)"),
             ("C03,C19:at-most-one-broker-ack", "n_msg_ack == old(n_msg_ack) or n_msg_ack == old(n_msg_ack) + 1"),
             ("C03,C19:unknown-id-is-a-no-op", "implies(not old(id in self.unacknowledged_messages), n_msg_ack == old(n_msg_ack))"),
         ],
@@ -134,5 +134,14 @@ def message_ack_contract(which):
         ],
         raises={}, modifies=None,
         covers_exit=[("single", "not istrue(multiple) and n_back == old(n_back) + 1"), ("returned-message", "n_back == old(n_back)")])
+    c.scope = sc
+    return c
+
+
+def scoped(c):
+    """The same contract carrying this module's externals as its own scope (for properties whose other units register a
+    different view of message.acknowledge / Message)."""
+    sc = Registry()
+    externals(sc)
     c.scope = sc
     return c
